@@ -51,7 +51,8 @@ theorem alignedV_batchTF_flow_split (a0 : Nat) (op : TOp) (t : Raw) (gs : List G
     (hsf : isSplitFamily op = true)
     (hargs : callArgs op (.batch true t gs a) other = some [.batch true t gs a])
     (hal : AlignedS a0 (.batch true t gs a))
-    (hgrid : torchFunctionGrid op [gs] = none ∨ ∃ l, torchFunctionGrid op [gs] = some (.nested l) ∧ (l = [] → gs = []))
+    (hgrid : torchFunctionGrid op [gs] = none ∨ ∃ l, torchFunctionGrid op [gs] = some (.nested l) ∧
+      (l = [] → (∃ ds, torchSem op t (other.map SVal.raw) = .ts ds) → gs = []))
     (hsub : ∀ ds, torchSem op t (other.map SVal.raw) = .ts ds → ∀ d ∈ ds, ∀ p ∈ d.prov, p ∈ t.prov) :
     AlignedV a0 (batchTorchFunction op (.batch true t gs a) other) := by
   obtain ⟨_, _, hprov, hax⟩ := hal
@@ -82,7 +83,7 @@ theorem alignedV_batchTF_flow_split (a0 : Nat) (op : TOp) (t : Raw) (gs : List G
       cases l with
       | nil =>
         simp only []
-        have hgs : gs = [] := hl rfl
+        have hgs : gs = [] := hl rfl ⟨ds, hsem⟩
         have htp : t.prov = [] := by rw [hprov, hgs]; rfl
         have hdp : d.prov = [] := by
           cases hdp : d.prov with
@@ -130,7 +131,7 @@ theorem alignedV_batchTF_split (a0 : Nat) (size : Nat) (d : DimArg) (f : Bool) (
       apply alignedV_batchTF_flow_split a0 _ t gs a other rfl hargs hal
       · right
         refine ⟨_, hgridEq, ?_⟩
-        intro hnil
+        intro hnil _
         have hlen : (gs.length + (m + 1) - 1) / (m + 1) = 0 := by
           have := congrArg List.length hnil
           simpa using this
@@ -226,7 +227,7 @@ theorem alignedV_batchTF_tsplitL (a0 : Nat) (idx : List Nat) (d : DimArg) (f : B
     apply alignedV_batchTF_flow_split a0 _ t gs a other rfl hargs hal
     · right
       refine ⟨_, hgridEq, ?_⟩
-      intro hnil
+      intro hnil _
       exact absurd (List.map_eq_nil_iff.mp hnil) (zip_bounds_ne_nil idx gs.length)
     · intro ds hds d' hd' p hp
       rw [torchSem_tsplitL] at hds
@@ -277,5 +278,137 @@ theorem alignedV_batchTF_tsplitL (a0 : Nat) (idx : List Nat) (d : DimArg) (f : B
         cases hkk
         simp only [Function.comp, Prod.map]
         exact piece_prov_aligned t gs hprov _ _
+
+/-! ### split(sections) / split_with_sizes along dim 0 (repaired in /repo: `start += num`) -/
+
+theorem torchSem_splitL (secs : List Nat) (dim : DimArg) (cur : Raw) (o : Option Raw) :
+    torchSem (.splitL secs dim) cur o =
+      match normDim cur.ndim dim.val with
+      | none => .err
+      | some d => if secs.foldr (· + ·) 0 ≠ cur.shape.getD d 0 then .err else .ts (pieces cur d secs) := rfl
+
+theorem torchSem_splitWS (secs : List Nat) (dim : DimArg) (cur : Raw) (o : Option Raw) :
+    torchSem (.splitWS secs dim) cur o =
+      match normDim cur.ndim dim.val with
+      | none => .err
+      | some d => if secs.foldr (· + ·) 0 ≠ cur.shape.getD d 0 then .err else .ts (pieces cur d secs) := rfl
+
+theorem provLeRes_pieces (cur : Raw) (d : Nat) (secs : List Nat) : ∀ r ∈ pieces cur d secs, ∀ p ∈ r.prov, p ∈ cur.prov := by
+  intro r hr p hp
+  unfold pieces at hr
+  rw [List.mem_map] at hr
+  obtain ⟨la, _, rfl⟩ := hr
+  exact piece_prov_subset cur _ _ _ p hp
+
+theorem kwDimIsZero_splitL (secs : List Nat) (d : DimArg) (h : dim0 d = true) : kwDimIsZero (.splitL secs d) = true := by
+  simp only [kwDimIsZero, dim0_val d h]
+  rfl
+
+theorem kwDimIsZero_splitWS (secs : List Nat) (d : DimArg) (h : dim0 d = true) : kwDimIsZero (.splitWS secs d) = true := by
+  cases d with
+  | dflt => rfl
+  | pos v => rfl
+  | kw v => simpa [kwDimIsZero, dim0] using h
+
+/-- common part of `split([sections])` and `split_with_sizes` along dim 0 -/
+theorem alignedV_batchTF_sections (a0 : Nat) (op : TOp) (secs : List Nat) (f : Bool) (t : Raw)
+    (gs : List GridTag) (a : Nat) (other : Option SVal)
+    (hargs : callArgs op (.batch f t gs a) other = some [.batch f t gs a])
+    (hsf : isSplitFamily op = true) (hzero : rangeStepZero op = false)
+    (hgridEq : torchFunctionGrid op [gs] =
+      some (.nested ((secs.zip (offsets secs 0)).map (fun (na : Nat × Nat) => pySlice gs na.2 na.1))))
+    (hsemEq : torchSem op t (other.map SVal.raw) =
+      match normDim t.ndim 0 with
+      | none => .err
+      | some d => if secs.foldr (· + ·) 0 ≠ t.shape.getD d 0 then .err else .ts (pieces t d secs))
+    (hal : AlignedS a0 (.batch f t gs a)) :
+    AlignedV a0 (batchTorchFunction op (.batch f t gs a) other) := by
+  cases f with
+  | true =>
+    apply alignedV_batchTF_flow_split a0 _ t gs a other hsf hargs hal
+    · right
+      refine ⟨_, hgridEq, ?_⟩
+      intro hnil hts
+      obtain ⟨ds, hds⟩ := hts
+      rw [hsemEq] at hds
+      have hsecs : secs = [] := by
+        cases secs with
+        | nil => rfl
+        | cons x xs => simp [offsets] at hnil
+      subst hsecs
+      cases hn : normDim t.ndim 0 with
+      | none => simp [hn] at hds
+      | some k =>
+        have hk : k = 0 := normDim_zero hn
+        subst hk
+        simp only [hn] at hds
+        split at hds
+        · cases hds
+        · rename_i hsum
+          have h0 : t.shape.getD 0 0 = 0 := (Decidable.not_not.mp hsum).symm
+          have hcount := hal.1
+          have : gs.length = 0 := by
+            rw [hcount]
+            cases hsh : t.shape with
+            | nil => rfl
+            | cons x xs => rw [hsh] at h0; simpa using h0
+          exact List.length_eq_zero_iff.mp this
+    · intro ds hds d' hd' p hp
+      rw [hsemEq] at hds
+      split at hds
+      · cases hds
+      · split at hds
+        · cases hds
+        · cases hds
+          exact provLeRes_pieces t _ secs d' hd' p hp
+  | false =>
+    obtain ⟨hcount, _, hprov, _⟩ := hal
+    unfold batchTorchFunction
+    cases hsem : torchSem op (SVal.batch false t gs a).raw (other.map SVal.raw) with
+    | err => exact alignedV_err a0 _
+    | t r =>
+      simp only [hargs, hzero, Bool.false_and, Bool.false_eq_true, if_false, List.any_cons, List.any_nil,
+        SVal.isFlow, Bool.or_false, hsf, if_true]
+      exact alignedV_err a0 _
+    | ts ds =>
+      simp only [hargs, hzero, Bool.false_and, Bool.false_eq_true, if_false, List.any_cons, List.any_nil,
+        SVal.isFlow, Bool.or_false, hsf, if_true, List.filterMap_cons, List.filterMap_nil, batchGrids?, hgridEq]
+      apply alignedV_ite _ _ _ _ (alignedV_err a0 _)
+      apply alignedV_ite _ _ _ _ (alignedV_err a0 _)
+      apply alignedV_collect
+      intro v hv
+      rw [List.mem_map] at hv
+      obtain ⟨⟨d', g'⟩, hdg, rfl⟩ := hv
+      simp only []
+      apply alignedV_ibResult
+      have hsem' : torchSem op t (other.map SVal.raw) = .ts ds := hsem
+      rw [hsemEq] at hsem'
+      cases hn : normDim t.ndim 0 with
+      | none => simp [hn] at hsem'
+      | some k =>
+        have hk : k = 0 := normDim_zero hn
+        subst hk
+        simp only [hn] at hsem'
+        split at hsem'
+        · cases hsem'
+        · cases hsem'
+          unfold pieces at hdg
+          obtain ⟨la, _, hkk⟩ := mem_zip_map_map _ _ _ _ hdg
+          cases hkk
+          exact piece_prov_aligned t gs hprov _ _
+
+theorem alignedV_batchTF_splitL (a0 : Nat) (secs : List Nat) (d : DimArg) (f : Bool) (t : Raw) (gs : List GridTag)
+    (a : Nat) (other : Option SVal) (hd : dim0 d = true) (hal : AlignedS a0 (.batch f t gs a)) :
+    AlignedV a0 (batchTorchFunction (.splitL secs d) (.batch f t gs a) other) := by
+  apply alignedV_batchTF_sections a0 _ secs f t gs a other rfl rfl rfl _ _ hal
+  · simp only [torchFunctionGrid, kwDimIsZero_splitL secs d hd, if_true]
+  · rw [torchSem_splitL, dim0_val d hd]
+
+theorem alignedV_batchTF_splitWS (a0 : Nat) (secs : List Nat) (d : DimArg) (f : Bool) (t : Raw) (gs : List GridTag)
+    (a : Nat) (other : Option SVal) (hd : dim0 d = true) (hal : AlignedS a0 (.batch f t gs a)) :
+    AlignedV a0 (batchTorchFunction (.splitWS secs d) (.batch f t gs a) other) := by
+  apply alignedV_batchTF_sections a0 _ secs f t gs a other rfl rfl rfl _ _ hal
+  · simp only [torchFunctionGrid, kwDimIsZero_splitWS secs d hd, if_true]
+  · rw [torchSem_splitWS, dim0_val d hd]
 
 end Deepali.Dispatch
